@@ -17,14 +17,19 @@ def oid_arcs(s):
     return [int(x) for x in s.split(".")]
 
 
-def mk(cid, kind, body_content, exp, crit=2, klass=""):
+def mk(cid, kind, body_content, exp, crit=2, klass="", before=None):
     body = {}
     if crit != 2:
         body["critical"] = bool(crit)
     if body_content is not None:
         body["content"] = body_content
     c = cfg("CN=ext under test", extensions=[{kind: body}])
-    return case(cid, [("e.yaml", c)], tag={"prop": "C07", "ent": "e", "class": klass or kind, "kind": kind, "crit": crit, "exp": exp})
+    files = [("e.yaml", c)]
+    if before is not None:
+        # another root of the same directory, built earlier in the same run (directory order), that carries the same kind of extension
+        # in another form: what one certificate was given must not show in the next one
+        files = [("a0.yaml", cfg("CN=built before", extensions=[{kind: before}]))] + files
+    return case(cid, files, tag={"prop": "C07", "ent": "e", "class": klass or kind, "kind": kind, "crit": crit, "exp": exp})
 
 
 def gn(t, name):
@@ -136,6 +141,28 @@ def cases(ctx):
                 klass="size/userNotice")
         b_ = bytes((i * 7) % 256 for i in range(n))
         add("authorityKeyIdentifier", {"id": "!binary:" + b64(b_)}, {"mode": "explicit", "id": list(b_)}, klass="size/aki")
+    # two certificates of one run with the same kind of extension: the first with a raw value (1, 2, 3 octets) or other content, the one
+    # under test with content - it encodes exactly ITS configured content
+    reps = [("ocspNoCheck", None, {}),
+            ("keyUsage", ["digitalSignature", "keyCertSign"], {"flags": ["digitalSignature", "keyCertSign"]}),
+            ("basicConstraints", {"ca": True, "pathLen": 1}, {"ca": True, "hasPathLen": True, "pathLen": 1}),
+            ("subjectKeyIdentifier", "hash", {"mode": "hash"}),
+            ("authorityKeyIdentifier", {"id": "hash"}, {"mode": "hash", "id": []}),
+            ("extendedKeyUsage", ["serverAuth", "1.2.3.4"], {"usages": [{"name": "serverAuth", "oid": []}, {"name": "", "oid": [1, 2, 3, 4]}]}),
+            ("subjectAlternativeName", [names[2][0], names[4][0]], {"names": [names[2][1], names[4][1]]}),
+            ("authorityInformationAccess", [{"ocsp": uris[0]}], {"uris": [list(uris[0].encode())]})]
+    for kind, body, exp in reps:
+        for crit in crits:
+            for raw in ("!binary:AQ==", "!binary:AQE=", "!binary:MAMBAf8=", "!null", "!empty"):
+                b4 = {"raw": raw}
+                if crit != 2:
+                    b4["critical"] = bool(crit)
+                add(kind, body, exp, crit=crit, klass="after-raw/" + kind, before=b4)
+    for crit in (0, 1):
+        add("keyUsage", ["crlSign"], {"flags": ["crlSign"]}, crit=crit, klass="after-content/keyUsage", before={"critical": bool(crit), "content": ["digitalSignature", "keyEncipherment", "keyAgreement"]})
+        add("basicConstraints", {"ca": False}, {"ca": False, "hasPathLen": False, "pathLen": 0}, crit=crit, klass="after-content/basicConstraints", before={"critical": bool(crit), "content": {"ca": True, "pathLen": 7}})
+        add("extendedKeyUsage", ["clientAuth"], {"usages": [{"name": "clientAuth", "oid": []}]}, crit=crit, klass="after-content/extendedKeyUsage", before={"critical": bool(crit), "content": ["serverAuth", "codeSigning", "1.2.3.4.5.6.7.8"]})
+        add("authorityInformationAccess", [{"ocsp": "http://b"}], {"uris": [list(b"http://b")]}, crit=crit, klass="after-content/aia", before={"critical": bool(crit), "content": [{"ocsp": "http://a-much-longer-responder-address.example/ocsp"}, {"ocsp": "ldap://x"}]})
     # many entries: the list itself crosses the borders
     for cnt in (10, 40, 130):
         combo = [gn("dns", "h%03d.example" % i) for i in range(cnt)]
